@@ -25,9 +25,9 @@ ASSUMPTIONS = ["migen tracer shim (names only)", "producer holds valid and token
                "selectors/enables change only when no token is stalled on the affected endpoint",
                "'never stalls forever' is restated as bounded progress: no-movement bound B_el = latency+depth+2*ratio+margin cycles"]
 FLOORS = {"quick": {"stalled_cycles_observed": 20000, "stability_checks": 20000, "coop_switch_states": 400,
-                    "status_cycles": 5000},
+                    "status_cycles": 5000, "dispatcher_beats_with_selector_designating_no_slave": 100},
           "thorough": {"stalled_cycles_observed": 400000, "stability_checks": 400000, "coop_switch_states": 4000,
-                       "status_cycles": 100000}}
+                       "status_cycles": 100000, "dispatcher_beats_with_selector_designating_no_slave": 1500}}
 SHARD_TIMEOUT = {"quick": 900, "thorough": 3000}
 N_SAMPLES = 4
 
